@@ -2114,8 +2114,11 @@ func c16Y7(l *core.Ledger, g *gen.Generator) {
 // depend on the order; anything else - indexing, keeping it in a variable,
 // passing it on - does.
 func orderSensitiveConsumer(g *gen.Generator, f genFunc) string {
-	obj := g.Pkg.TypesInfo.Defs[f.decl.Name]
-	if obj == nil {
+	return orderSensitiveConsumerOf(g, g.Pkg.TypesInfo.Defs[f.decl.Name], 0)
+}
+
+func orderSensitiveConsumerOf(g *gen.Generator, obj types.Object, depth int) string {
+	if obj == nil || depth > 4 {
 		return ""
 	}
 	bad := ""
@@ -2147,6 +2150,21 @@ func orderSensitiveConsumer(g *gen.Generator, f genFunc) string {
 			case *ast.CallExpr:
 				if fid, isID := p.Fun.(*ast.Ident); isID && fid.Name == "len" {
 					return true
+				}
+			case *ast.ReturnStmt:
+				// handed on as the result of the enclosing function: that function's callers decide
+				if len(p.Results) == 1 {
+					for k := len(stack) - 3; k >= 0; k-- {
+						if fd, isFD := stack[k].(*ast.FuncDecl); isFD {
+							if b := orderSensitiveConsumerOf(g, g.Pkg.TypesInfo.Defs[fd.Name], depth+1); b != "" {
+								bad = b
+							}
+							return true
+						}
+						if _, isLit := stack[k].(*ast.FuncLit); isLit {
+							break
+						}
+					}
 				}
 			}
 			bad = "its result is used at " + g.Pkg.Fset.Position(ce.Pos()).String() + " other than by ranging over it or taking its length (an element picked by position is picked in map order)"
